@@ -104,6 +104,9 @@ class RTDCWriter:
                                     mode=("w" if mode == "reset" else "a"))
         #: unfortunate necessity, as `len(h5py.Group)` can be really slow
         self._group_sizes = {}
+        #: number of valid (not nan) values written to scalar datasets,
+        #: needed for updating the "mean" attribute when appending
+        self._num_valid = {}
 
     def __enter__(self):
         return self
@@ -840,15 +843,28 @@ class RTDCWriter:
                 else:
                     val = ufunc(dset)
                 dset.attrs[uname] = val
-            # store ufunc data for mean (weighted with size)
+            # store ufunc data for mean (weighted with the number of
+            # valid values, i.e. values that are not nan)
             mean_a = dset.attrs.get("mean", None)
+            num_key = (group.file.filename, dset.name)
+            num_b = int(np.sum(~np.isnan(data)))
             if mean_a is not None:
-                num_a = offset
-                mean_b = np.nanmean(data)
-                num_b = data.size
-                mean = (mean_a * num_a + mean_b * num_b) / (num_a + num_b)
+                if num_key in self._num_valid:
+                    num_a = self._num_valid[num_key]
+                else:
+                    # new writer instance: count the previous valid values
+                    num_a = int(np.sum(~np.isnan(dset[:offset])))
+                if num_b == 0:
+                    mean = mean_a
+                elif num_a == 0:
+                    mean = np.nanmean(data)
+                else:
+                    mean_b = np.nanmean(data)
+                    mean = (mean_a * num_a + mean_b * num_b) / (num_a + num_b)
+                self._num_valid[num_key] = num_a + num_b
             else:
                 mean = np.nanmean(dset)
+                self._num_valid[num_key] = int(np.sum(~np.isnan(dset[:])))
             dset.attrs["mean"] = mean
         else:
             chunk_size = dset.chunks[0]
